@@ -18,7 +18,8 @@ import subprocess
 import sys
 import time
 
-ROOT = "/verif"
+# the directory this machinery lives in (/verif, or a snapshot of it under `vp run`)
+ROOT = os.path.dirname(os.path.dirname(os.path.abspath(__file__)))
 SPEC = ROOT + "/spec"
 HARNESS = ROOT + "/harness"
 WORK = ROOT + "/work"
